@@ -25,7 +25,7 @@ from harness.drivers import inv_common as ic
 
 S = 100000  # LogScale
 OFF = 2_000_000_000
-RFF_DEN = 60
+RFF_DEN = 840  # lcm(1..8): data values after sky subtraction stay within -8..8
 LOG_TABLE = {e: int(round(S * math.log(2.0 * math.pi * 4.0 ** e))) for e in (-1, 0, 1)}
 
 INVARIANTS = ["SlimModeEqualsNativeMode", "MaskedValuesNeverMatter", "ElementwiseDefinitions", "SkyShiftsDataOnly", "Homogeneity",
@@ -619,8 +619,8 @@ def run(ctx):
         "pattern_shapes": [(2, 3), (1, 4), (3, 3)] if quick else [(2, 3), (3, 2), (1, 4), (3, 3), (2, 4)],
         "inversion_shapes": [(1, 2)],
         "values": [-2, 3], "noise_exponents": [-1, 0, 1],
-        "skies": [0, 2] if quick else [-1, 0, 2],
-        "patterns": 3 if quick else 6,
+        "skies": [-1, 0, 2],
+        "patterns": 4 if quick else 8,
         "layouts": ["R2", "R1N1", "N1R2", "N2", "R1N1R1"] if quick else ["R2", "R1N1", "N1R2", "N2", "R1N1R1", "R3", "R2N1R1", "N1R2N1", "R2R2"],
         "design_matrix_values": [0, 1] if quick else [0, 1, 2],
         "reg_kinds": [(1, 0), (4, 0), (4, 1)],
